@@ -117,6 +117,7 @@ class Observer:
         self.targets = {}        # code object -> label
         self.events = []
         self.active = False
+        self.coframes = {}       # id(frame) -> frame of coroutine handlers already entered (a resume is not an entry)
 
     def add(self, code, label):
         self.targets.setdefault(code, label)
@@ -126,6 +127,10 @@ class Observer:
             lab = self.targets.get(frame.f_code)
             if lab is not None:
                 code = frame.f_code
+                if code.co_flags & 0x80:          # CO_COROUTINE: 'call' also fires on every resume
+                    if self.coframes.get(id(frame)) is frame:
+                        return
+                    self.coframes[id(frame)] = frame
                 names = code.co_varnames[:code.co_argcount]
                 loc = frame.f_locals
                 second = loc.get(names[1]) if len(names) > 1 else None
